@@ -131,6 +131,7 @@ type h2World struct {
 	pendDial []*h2PeerConn
 	tokReal  []string
 	plannedCid int
+	relayOf  map[string]string
 	onCid    func(idx int, key string, bound bool)
 }
 
@@ -202,7 +203,7 @@ func (g *h2Gen) AllocateConn(c AllocateConnConfig) (net.Conn, error) {
 func newH2World(vt *vhT, cfg ServerConfig, lis []*h2Listener, withAuth bool, withQuota bool) *h2World {
 	w := &h2World{vt: vt, n: newSimNet(), ev: &evlog{}, lis: lis, relayV4: net.ParseIP("10.0.0.1").To4(),
 		relayV6: net.ParseIP("fd00::1"), cidIndex: map[uint32]int{}, peerUDP: map[string]*simPC{},
-		peerLis: map[string]*simListener{}, clients: map[string]*h2Client{}, quotaAns: true, realm: "pion.ly"}
+		peerLis: map[string]*simListener{}, clients: map[string]*h2Client{}, relayOf: map[string]string{}, quotaAns: true, realm: "pion.ly"}
 	lf := logging.NewDefaultLoggerFactory()
 	lf.DefaultLogLevel = logging.LogLevelDisabled
 	cfg.LoggerFactory = lf
@@ -219,12 +220,22 @@ func newH2World(vt *vhT, cfg ServerConfig, lis []*h2Listener, withAuth bool, wit
 	if withQuota {
 		cfg.QuotaHandler = func(string, string, net.Addr) bool { return w.quotaAns }
 	}
-	key := func(s, d net.Addr) string { return canonAddr(s) + ">" + canonAddr(d) }
+	key := func(s, d net.Addr) string {
+		lid := -1
+		for i, l := range w.lis {
+			_, dTCP := d.(*net.TCPAddr)
+			if l.stream == dTCP && canonAddr(w.lisAddr(i)) == canonAddr(d) {
+				lid = i
+			}
+		}
+		return fmt.Sprintf("%d %s", lid, canonAddr(s))
+	}
 	cfg.EventHandler = EventHandler{
 		OnAllocationCreated: func(s, d net.Addr, p, u, r string, relay net.Addr, port int) {
-			w.ev.add("alloc+ %s relay=%s", key(s, d), canonAddr(relay))
+			w.relayOf[key(s, d)] = canonAddr(relay)
+			w.ev.add("alloc+ %s %s", key(s, d), canonAddr(relay))
 		},
-		OnAllocationDeleted: func(s, d net.Addr, p, u, r string) { w.ev.add("alloc- %s", key(s, d)) },
+		OnAllocationDeleted: func(s, d net.Addr, p, u, r string) { w.ev.add("alloc- %s %s", key(s, d), w.relayOf[key(s, d)]) },
 		OnPermissionCreated: func(s, d net.Addr, p, u, r string, relay net.Addr, peer net.IP) {
 			w.ev.add("perm+ %s %s", key(s, d), canonIPStr(peer))
 		},
@@ -637,6 +648,18 @@ func (w *h2World) collect() []string {
 			outs = append(outs, fmt.Sprintf("cclosed %d %d %s", pc.lid, pc.cid, canonAddr(pc.peer)))
 		}
 		pc.mu.Unlock()
+	}
+	for _, e := range w.ev.take() {
+		outs = append(outs, "ev "+e)
+	}
+	for _, e := range w.n.takeEvents() {
+		f := strings.Fields(e) // "open udp 10.0.0.1:50001"
+		if len(f) == 3 && (f[1] == "udp" || f[1] == "tcp") {
+			if ua, err := net.ResolveUDPAddr("udp", f[2]); err == nil {
+				e = f[0] + " " + f[1] + " " + canonAddr(ua)
+			}
+		}
+		outs = append(outs, "net "+e)
 	}
 	sort.Strings(outs)
 	return outs
